@@ -380,23 +380,24 @@ CsvClass(c) == CASE c = COMMA -> "comma" [] c = DQ -> "dquote" [] c = CR -> "cr"
 JsonClass(c) == CASE IsWs(c) -> "ws" [] c = DQ -> "dquote" [] c = BS -> "backslash" [] c < 32 -> "control"
                   [] IsDigit(c) -> "digit" [] c \in {LBRACE, RBRACE, LBRACK, RBRACK, COLON, COMMA, MINUS, PLUS, DOT} -> "punct"
                   [] OTHER -> "other"
-\* one action per consumed character (and per character class, so coverage shows each class was read)
+\* one action per consumed character (and per character class, so coverage shows each class was read;
+\* the leading conjunct makes TLC report coverage under the action's own name)
 CsvConsume(cls) == /\ fmt = 1 /\ pos >= 1 /\ pos <= Len(input) /\ CsvClass(input[pos]) = cls
                    /\ cs' = CsvStep(cs, input[pos]) /\ pos' = pos + 1 /\ UNCHANGED <<tbl, fmt, dev, shape, input, js>>
 JsonConsume(cls) == /\ fmt = 2 /\ pos >= 1 /\ pos <= Len(input) /\ JsonClass(input[pos]) = cls
                     /\ js' = JsonStep(js, input[pos]) /\ pos' = pos + 1 /\ UNCHANGED <<tbl, fmt, dev, shape, input, cs>>
-CsvComma == CsvConsume("comma")
-CsvDquote == CsvConsume("dquote")
-CsvCr == CsvConsume("cr")
-CsvLf == CsvConsume("lf")
-CsvOther == CsvConsume("other")
-JsonWs == JsonConsume("ws")
-JsonDquote == JsonConsume("dquote")
-JsonBackslash == JsonConsume("backslash")
-JsonControl == JsonConsume("control")
-JsonDigit == JsonConsume("digit")
-JsonPunct == JsonConsume("punct")
-JsonOther == JsonConsume("other")
+CsvComma == pos >= 1 /\ CsvConsume("comma")
+CsvDquote == pos >= 1 /\ CsvConsume("dquote")
+CsvCr == pos >= 1 /\ CsvConsume("cr")
+CsvLf == pos >= 1 /\ CsvConsume("lf")
+CsvOther == pos >= 1 /\ CsvConsume("other")
+JsonWs == pos >= 1 /\ JsonConsume("ws")
+JsonDquote == pos >= 1 /\ JsonConsume("dquote")
+JsonBackslash == pos >= 1 /\ JsonConsume("backslash")
+JsonControl == pos >= 1 /\ JsonConsume("control")
+JsonDigit == pos >= 1 /\ JsonConsume("digit")
+JsonPunct == pos >= 1 /\ JsonConsume("punct")
+JsonOther == pos >= 1 /\ JsonConsume("other")
 Next == \/ Choose
         \/ CsvComma \/ CsvDquote \/ CsvCr \/ CsvLf \/ CsvOther
         \/ JsonWs \/ JsonDquote \/ JsonBackslash \/ JsonControl \/ JsonDigit \/ JsonPunct \/ JsonOther
